@@ -57,7 +57,7 @@ VARIANTS = {(s, p, m): f"cV{int(s)}{int(p)}{int(m)}" for s in (0, 1) for p in (0
 
 
 # ======================================================================================= systems
-def gen_phys(rng: random.Random, n: int, slm: bool, given: bool, big_gap: bool = False) -> dict:
+def gen_phys(rng: random.Random, n: int, slm: bool, given: bool, local2: bool = False) -> dict:
     """A random label-tagged system: distinct pair distances, distinct DMM weights, two pulses."""
     for _ in range(200):
         xs = [0.0]
@@ -88,7 +88,11 @@ def gen_phys(rng: random.Random, n: int, slm: bool, given: bool, big_gap: bool =
         "dmm_det": round(rng.uniform(-45.0, -12.0), 3), "t1": t1, "t2": t2,
         "slm": sorted(rng.sample(range(n), rng.randint(1, n - 1))) if slm and n >= 2 else [],
         "init": None,
+        # second pulse on a LOCAL channel addressing one atom with its own phase: distinct phi / omega columns
+        "local2": rng.randrange(n) if local2 else None,
     }
+    if local2 and phys["phase2"] == 0.0:
+        phys["phase2"] = 1.3
     if given:
         # two basis strings over LABELS with distinct letter patterns, amplitudes 0.8 / 0.6
         a = [rng.choice("rg") for _ in range(n)]
@@ -124,6 +128,16 @@ def seq_spec(phys: dict, order: list[int]) -> dict:
     slm = [f"a{a}" for a in phys["slm"] if a in order]
     if slm:
         spec["slm"] = slm
+    loc = phys.get("local2")
+    if loc is not None:
+        if loc in order:
+            spec["channels"]["loc"] = "rydberg_local"
+            spec["initial_target"] = {"loc": f"a{loc}"}
+            spec["ops"][2]["ch"] = "loc"
+            spec["ops"][2]["protocol"] = "no-delay"
+            spec["ops"].insert(2, {"op": "delay", "d": phys["t1"], "ch": "loc"})
+        else:                                     # the addressed atom is not in this (reduced) register: nobody is driven
+            spec["ops"][2] = {"op": "delay", "d": phys["t2"], "ch": "ryd"}
     return spec
 
 
@@ -799,7 +813,7 @@ def all_perms(n: int) -> list[list[int]]:
 
 
 # ======================================================================================= replay engine
-LOOSE_FLOOR = {"plain": 2e-3, "given": 2e-2, "slm": 0.35}
+LOOSE_FLOOR = {"plain": 1e-2, "given": 5e-2, "slm": 0.5}
 
 
 def flavour(phys: dict) -> str:
@@ -810,9 +824,14 @@ def loose_tol(case: dict, nsteps: int) -> float:
     """Budget for a TDVP run against the EXACT dense reference.  2-site TDVP started from a product
     state has a projection error that the configured precision does not control (measured on the
     repaired tree, dt = 10 ns, forced site orders, n <= 5: plain <= 3e-5, given <= 6e-4, SLM switch-on
-    <= 5e-2); the statement grants "discretisation error", so this comparison only pins labels grossly.
+    <= 5e-2; floors 1e-2 / 5e-2 / 0.5); the statement grants "discretisation error", so this comparison only
+    pins labels grossly.
     The sharp oracle is the same-site-order run (see tight_ref_case)."""
-    return max(tol_for(case, nsteps), LOOSE_FLOOR[flavour(case["phys"])] * (1.0 if case["phys"]["n"] <= 5 else 2.0))
+    if case["phys"]["n"] > 5:
+        # beyond the sizes where the error was measured (6e-3 seen at 10 atoms in a scrambled order) only a
+        # gross mismatch of the values is an alarm; labels are pinned by the tight oracle and the site-level hooks
+        return 0.3
+    return max(tol_for(case, nsteps), LOOSE_FLOOR[flavour(case["phys"])])
 
 
 def site_order(case: dict) -> list[int]:
